@@ -204,6 +204,27 @@ def execOp (line : String) : String :=
     | "rt" => withPkts rtLine
     | "reenc" => withHex reencLine
     | "relay" => withHex relayLine
+    | "plist2" => match args.map String.toNat? with
+        | [some id, some bm, some _] =>
+          let l := NackPair.packetList { packetID := id, lost := bm }
+          "ok " ++ join (wList wNat l) ++ " ; " ++ join (wList wNat l) ++ s!" ; {id} {bm}"
+        | _ => bad
+    | "decalias" => withHex fun b =>
+        match kindOfName kind with
+        | some k => match decKind k b with
+          | .ok p =>
+            -- which decoded fields are sub-slices of the input buffer in the Go code (everything else is copied)
+            let aliases := match p with
+              | .sr v => !v.ext.isEmpty
+              | .rr v => !v.ext.isEmpty
+              | .app v => !v.data.isEmpty
+              | .raw r => !r.isEmpty
+              | _ => false
+            if aliases then "ok alias" else "ok copy"
+          | .err => "err"
+          | .panic => "panic"
+          | .diverge => "diverge"
+        | none => bad
     | "rembto" =>
         match args.reverse with
         | bl :: restRev =>
@@ -369,6 +390,11 @@ def execOp (line : String) : String :=
           | some b => okHex b.enc
           | none => bad
         | "dec" => withHex fun b => outStr (CcfbMetric.dec b) (join ∘ wMetric)
+        | "reuse" => match args with
+          | [_, hb] => match unhex hb with
+            | some b => outStr (CcfbMetric.dec b) (join ∘ wMetric)
+            | none => bad
+          | _ => bad
         | _ => bad
     | "hist" => match histLine args with
         | some s => s
